@@ -16,7 +16,9 @@ import (
 
 func init() {
 	monitors["C10"] = runC10
-	replayers["decode"] = func(rec *ev.Rec, c map[string]interface{}) bool { return judgeDecode(rec, hexf(c, "b"), str(c, "class")) }
+	replayers["decode"] = func(rec *ev.Rec, c map[string]interface{}) bool {
+		return judgeDecode(rec, hexf(c, "b"), str(c, "class"))
+	}
 	replayers["encode-out"] = func(rec *ev.Rec, c map[string]interface{}) bool {
 		return judgeOutputs(rec, hexf(c, "seed"), hexf(c, "msg"), caseVariant(c["variant"]))
 	}
@@ -205,7 +207,7 @@ func judgeOutputs(rec *ev.Rec, seed, msg []byte, v ref.Variant) bool {
 
 func runC10(cfg *Cfg, rec *ev.Rec) {
 	rng := cfg.rng("c10")
-	ks, cs := specialKeys()
+	ks, cs := gen.SpecialKeys()
 	for i := range ks {
 		if cfg.mine(i) {
 			judgeDecode(rec, ks[i], cs[i])
